@@ -11,8 +11,8 @@ ID = "C11"
 RULE = (
     "10 simple queries (two with the fake root), 5 more whose filter refers to $ (alone and in 1-operator compounds) and every compound query with 1..3 union/intersection operators over them (8 + 128 + 2048 + 32768/8 "
     "sampled-free: 3-operator queries use the first 5 operands) x every array/object document of Univ(1,3) over leaves "
-    "{2,'a',null} plus 24 nested documents; each evaluated through 14 entry points (env and compiled findall, finditer, match, "
-    "query().values(), and the document given as JSON text, StringIO and BytesIO) and compared with the fold of the simple "
+    "{2,'a',null} plus 24 nested documents; each evaluated through up to 21 entry points (env and compiled findall, finditer, match, "
+    "query().values(), and the document given as JSON text, StringIO and BytesIO in UTF-8, UTF-8 with BOM, UTF-16 and UTF-32; queries reading the filter context get the caller's mapping through every one of them) and compared with the fold of the simple "
     "results (union = concatenation, intersection = left restricted to values produced by right, left to right). "
     "NEST: every (a op b) op c over 5 simple queries built with the CompoundJSONPath constructor around a compiled compound path "
     "and union()/intersection(), through 5 entry points. "
@@ -52,12 +52,19 @@ ROOTREF = ["$[?@ == $.b]", "$.a[?@ == $.b]", "$[?$.a]", "$..[?@.a == $.b]", "$.*
 
 def queries(tier):
     out = [(q,) for q in SIMPLE]
-    out += [(q,) for q in ROOTREF]
+    out += [(q,) for q in ROOTREF + CTXREF]
     for q in ROOTREF:
         for r in SIMPLE[:3] + ROOTREF[:2]:
             for op in "|&":
                 out.append((q, op, r))
                 out.append((r, op, q))
+    # the caller's filter context reaches every operand through every entry point
+    for q in CTXREF:
+        for r in SIMPLE[:3] + CTXREF[:2]:
+            for op in "|&":
+                out.append((q, op, r))
+                out.append((r, op, q))
+        out.append(("$.a", "|", q, "&", CTXREF[0]))
     for n in (1, 2, 3):
         pool = (SIMPLE[:8] if tier == "quick" else SIMPLE) if n < 3 else (SIMPLE[:4] if tier == "quick" else SIMPLE[:6])
         for qs in itertools.product(pool, repeat=n + 1):
@@ -142,29 +149,38 @@ def run_shard(shard, acc):
         _check(parts, ds, acc)
 
 
-def _entries(text, p, doc, with_forms):
+CTXREF = ["$[?@ == _.v]", "$.a[?@ == _.v]", "$..[?@.a == _.v]", "$[?_.w]"]
+CTX = {"v": 2, "w": "a"}
+
+
+def _entries(text, p, doc, with_forms, fc=None):
     import jsonpath
 
-    yield "env.findall", lambda: jsonpath.findall(text, doc)
-    yield "env.finditer", lambda: [m.obj for m in jsonpath.finditer(text, doc)]
-    yield "compiled.findall", lambda: p.findall(doc)
-    yield "compiled.finditer", lambda: [m.obj for m in p.finditer(doc)]
-    yield "env.query.values", lambda: list(jsonpath.query(text, doc).values())
-    yield "compiled.query.values", lambda: list(p.query(doc).values())
-    yield "compiled.query.iter", lambda: [m.obj for m in p.query(doc)]
+    kw = {} if fc is None else {"filter_context": fc}
+    yield "env.findall", lambda: jsonpath.findall(text, doc, **kw)
+    yield "env.finditer", lambda: [m.obj for m in jsonpath.finditer(text, doc, **kw)]
+    yield "compiled.findall", lambda: p.findall(doc, **kw)
+    yield "compiled.finditer", lambda: [m.obj for m in p.finditer(doc, **kw)]
+    yield "env.query.values", lambda: list(jsonpath.query(text, doc, **kw).values())
+    yield "compiled.query.values", lambda: list(p.query(doc, **kw).values())
+    yield "compiled.query.iter", lambda: [m.obj for m in p.query(doc, **kw)]
     if with_forms:
         t = json.dumps(doc)
-        yield "findall(text)", lambda: p.findall(t)
-        yield "finditer(text)", lambda: [m.obj for m in p.finditer(t)]
-        yield "findall(StringIO)", lambda: p.findall(io.StringIO(t))
-        yield "findall(BytesIO)", lambda: p.findall(io.BytesIO(t.encode()))
-        yield "finditer(StringIO)", lambda: [m.obj for m in p.finditer(io.StringIO(t))]
-        yield "env.findall(StringIO)", lambda: jsonpath.findall(text, io.StringIO(t))
-        yield "query(StringIO).values", lambda: list(p.query(io.StringIO(t)).values())
-        yield "match(StringIO)", lambda: (lambda m: [] if m is None else [m.obj])(p.match(io.StringIO(t)))[:1] + [
-            x for x in p.findall(doc)[1:]]
-        yield "env.match(text)", lambda: (lambda m: [] if m is None else [m.obj])(jsonpath.match(text, t))[:1] + [
-            x for x in p.findall(doc)[1:]]
+        yield "findall(text)", lambda: p.findall(t, **kw)
+        yield "finditer(text)", lambda: [m.obj for m in p.finditer(t, **kw)]
+        yield "findall(StringIO)", lambda: p.findall(io.StringIO(t), **kw)
+        yield "findall(BytesIO)", lambda: p.findall(io.BytesIO(t.encode()), **kw)
+        yield "finditer(StringIO)", lambda: [m.obj for m in p.finditer(io.StringIO(t), **kw)]
+        yield "env.findall(StringIO)", lambda: jsonpath.findall(text, io.StringIO(t), **kw)
+        yield "query(StringIO).values", lambda: list(p.query(io.StringIO(t), **kw).values())
+        yield "match(StringIO)", lambda: (lambda m: [] if m is None else [m.obj])(p.match(io.StringIO(t), **kw))[:1] + [
+            x for x in p.findall(doc, **kw)[1:]]
+        yield "env.match(text)", lambda: (lambda m: [] if m is None else [m.obj])(jsonpath.match(text, t, **kw))[:1] + [
+            x for x in p.findall(doc, **kw)[1:]]
+        # a binary file in any encoding json.loads detects (RFC 8259 8.1 / json.detect_encoding)
+        for enc in ("utf-8-sig", "utf-16", "utf-16-le", "utf-32"):
+            yield "findall(BytesIO %s)" % enc, lambda enc=enc: p.findall(io.BytesIO(t.encode(enc)), **kw)
+        yield "finditer(BytesIO utf-16)", lambda: [m.obj for m in p.finditer(io.BytesIO(t.encode("utf-16")), **kw)]
 
 
 def _nest(acc, record=True, only=None):
@@ -292,12 +308,14 @@ def _check(parts, ds, acc, record=True, only_doc=None):
     except Exception as e:  # noqa: BLE001
         acc.violation("EP", "compile-error", {"query": text}, expected="compiles", observed="%s: %s" % (type(e).__name__, e))
         return
+    fc = CTX if "_" in text else None
+    kw = {} if fc is None else {"filter_context": fc}
     for di, doc in enumerate(ds):
         if only_doc is not None and not jeq(doc, only_doc):
             continue
-        exp = fold([_SIMPLE_C[s].findall(doc) for s in operands], ops)
+        exp = fold([_SIMPLE_C[s].findall(doc, **kw) for s in operands], ops)
         bad = None
-        for name, fn in _entries(text, p, doc, di % 2 == 0 or only_doc is not None):
+        for name, fn in _entries(text, p, doc, di % 2 == 0 or only_doc is not None, fc):
             try:
                 got = fn()
                 if not jeq_list(got, exp):
@@ -308,8 +326,8 @@ def _check(parts, ds, acc, record=True, only_doc=None):
                 break
         if bad is None:
             try:
-                m1 = jsonpath.match(text, doc)
-                m2 = p.match(doc)
+                m1 = jsonpath.match(text, doc, **kw)
+                m2 = p.match(doc, **kw)
                 for nm, m in (("env.match", m1), ("compiled.match", m2)):
                     if exp:
                         if m is None or not jeq(m.obj, exp[0]):
